@@ -519,7 +519,7 @@ def random_scenario(rng):
         elif r < 0.76:
             events.append(["xfer", sid, rng.choice(["LIST", "RETR", "STOR"])])
         elif r < 0.82:
-            events.append(["cmd", sid, rng.choice(["NOOP", "PWD", "TYPE I", "SYST", "FOO", "REST 5", "ABOR"])])
+            events.append(["cmd", sid, rng.choice(["NOOP", "PWD", "TYPE I", "SYST", "FOO", "REST 5", "ABOR", "USER anonymous", "USER anonymous", "CWD /", "MKD p"])])
         elif r < 0.92:
             events.append([rng.choice(["quit", "close", "vanish", "epsvarg"]), sid])
             maybe_gate.discard(sid)
@@ -573,6 +573,10 @@ def fixed_scenarios():
     out.append({"ports": [5000, 5000], "faults": {}, "events": [["connect"], ["connect"], ["pasv", 0, "PASV", []], ["pasv", 1, "PASV", []], ["quit", 0]], "family": "fixed"})
     out.append({"ports": [], "faults": {}, "events": [["connect"], ["pasv", 0, "EPSV", []]], "family": "fixed"})
     out.append({"ports": [5000, 5001, 5002], "faults": {"5000": ["EADDRINUSE"], "5001": ["EACCES"]}, "events": [["connect"], ["pasv", 0, "PASV", [0, 1]], ["open", 0], ["connect"], ["pasv", 1, "PASV", []]], "family": "fixed"})
+    # a re-login keeps the session's listener and its port (nothing about USER touches the pool)
+    out.append({"ports": [5000, 5001], "faults": {}, "events": [["connect"], ["pasv", 0, "EPSV", []], ["cmd", 0, "USER anonymous"], ["connect"], ["pasv", 1, "EPSV", []], ["cmd", 1, "USER anonymous"],
+                                                                 ["quit", 0], ["quit", 1], ["connect"], ["pasv", 2, "PASV", []], ["connect"], ["pasv", 3, "PASV", []]], "family": "fixed"})
+    out.append({"ports": [5000], "faults": {}, "events": [["connect"], ["pasv", 0, "PASV", []], ["cmd", 0, "USER anonymous"], ["pasv", 0, "PASV", []], ["data", 0], ["xfer", 0, "LIST"], ["vanish", 0], ["connect"], ["pasv", 1, "EPSV", []]], "family": "fixed"})
     out.append({"ports": [5000], "faults": {}, "events": [["connect"], ["pasv", 0, "PASV", [1]], ["cmd", 0, "NOOP"], ["open", 0], ["pasv", 0, "EPSV", []], ["data", 0], ["xfer", 0, "RETR"], ["connect"], ["pasv", 1, "PASV", []]], "family": "fixed"})
     out.append({"ports": [5000, 5001], "faults": {}, "events": [["connect"], ["bind", 5000], ["pasv", 0, "PASV", []], ["unbind", 5000], ["connect"], ["bind", 5001], ["pasv", 1, "EPSV", []], ["quit", 0], ["connect"], ["pasv", 2, "EPSV", []]], "family": "fixed"})
     return out
